@@ -30,7 +30,7 @@ try:  # the variant flags of the Text / Wrap models (C05/C02), whose `Text.wrap`
 except Exception:  # pragma: no cover
     WRAP_FLAGS = "00000000"
 STRIPNL = int(os.environ.get("VERIF_C17_STRIPNL", "0"))          # 1: get_lexer_by_name(name) keeps Pygments' stripnl=True; 0: repaired (stripnl=False; fix 92fb879)
-RANGE_POP = int(os.environ.get("VERIF_C17_RANGE_POP", "1"))      # 1: `text.split("\n")` / guides `.split("\n")`: a blank line that ends the range is lost, an empty selection with guides shows a row; 0: repaired
+RANGE_POP = int(os.environ.get("VERIF_C17_RANGE_POP", "0"))      # 1: `text.split("\n")` / guides `.split("\n")`: a blank line that ends the range is lost, an empty selection with guides shows a row; 0: repaired
 SKIP_RAISES = int(os.environ.get("VERIF_C17_SKIP_RAISES", "0"))  # 1: bare next(tokens) in tokens_to_spans -> RuntimeError past the end; 0: repaired (break; fix 1d638e8)
 
 GUIDE = "│"
@@ -459,6 +459,8 @@ def rand_source(rng, lexer):
     elif r < 0.08 and code:
         i = rng.randrange(len(code))
         code = code[:i] + rng.choice(["\x08", "\x0b", "\x0c", "\x07"]) + code[i:]
+    elif r < 0.10:  # a last line made of nothing but characters Text strips (Text.split pops a last piece that is empty AFTER stripping)
+        code = code.rstrip("\n") + "\n" + rng.choice(["\x08", "\x0b", "\x0c", "\x08\x0c"]) + rng.choice(["", "\n"])
     return code
 
 
@@ -1301,7 +1303,7 @@ def eval_traceback(out, frames, extra, ww, ig, src, path):
                     # under extra_lines=0 that row even carries the failing-line marker
                     slug = "traceback-empty-selection-shows-row" if RANGE_POP and ig and len(parsed) == 1 and all(set(b) <= {" "} for b in bodies) else None
                     return "a row (marked: %s) is shown under number %d, the file has only %d lines" % (_m, num, len(P0)), slug
-            if any(p[1] for p in parsed):
+            if any(p[1] and not (p[0] == lineno <= len(P0)) for p in parsed):
                 return "a row is marked as failing line %d but the file has only %d lines" % (lineno, len(lines)), None
             for num, _m, bodies in parsed:
                 b0 = unguide(bodies[0], P0[num - 1]) if ig else bodies[0]
